@@ -1,15 +1,14 @@
 CONSTANTS
   Variant = "fixed"
   XVariant = "fixed"
-  RuleIds = {9, 12, 13, 14, 15, 16, 17, 18, 19, 20, 30, 31, 35}
+  RuleIds = {9, 13, 14, 15, 16, 17, 18, 19, 20, 31, 35}
   K = 3
   Toks <- TokQ
   MaxParts = 2
   Methods = {"GET", "POST"}
-  Binds = {1, 5}
+  Binds = {5}
   WsKinds = {FALSE, TRUE}
   ExportEvery = 1
 INIT Init
 NEXT Next
 INVARIANT ImplInExpectedX
-INVARIANT AdapterOpsInContract
